@@ -31,6 +31,8 @@ pub fn gen_conventional(rng: &mut Rng, with_infer: bool) -> Conv {
         let mut a = ArgS { id: format!("id{i}"), ..Default::default() };
         match rng.below(3) { 0 => a.long = Some(longs[i].to_string()), 1 => a.short = Some(shorts[i]), _ => { a.long = Some(longs[i].to_string()); a.short = Some(shorts[i]); } }
         if a.long.is_some() && rng.chance(1, 3) { a.aliases.push(format!("{}-alias", longs[i])); }
+        // a short-only arg may still have long aliases (keys and inference candidates like any long)
+        if a.long.is_none() && rng.chance(1, 2) { a.aliases.push(format!("{}-alias", longs[i])); }
         if a.short.is_some() && rng.chance(1, 3) { a.short_aliases.push(shorts[i].to_ascii_uppercase()); }
         if i < n_opt {
             a.action = Some(if rng.chance(2, 3) { "append" } else { "set" });
